@@ -14,6 +14,7 @@ mod hdlc;
 mod ring;
 mod sched;
 mod sources;
+mod vm;
 mod waits;
 
 fn main() {
@@ -23,6 +24,15 @@ fn main() {
         Some("ring") => ring::run(&args),
         Some("blocks") => blocks::run(&args),
         Some("sched") => sched::run(&args),
+        Some("vm") => vm::run(&args),
+        Some("vmtrace") => {
+            vm::trace(&args);
+            vec![]
+        }
+        Some("vm-exhaust") => {
+            vm::exhaust_child(&args);
+            vec![]
+        }
         Some("fsink") => fsink::run(&args),
         Some("fsink-child") => {
             fsink::child(&args);
